@@ -39,10 +39,10 @@ StrDefault(X, A, n) ==
     ELSE LET ds == DefaultsOf(X, A, n)
              di == FirstTrue(X, A, ds)
              dv == IF di = 0 THEN 0 ELSE EvalE(X, A, ds[di].v)
-         IN IF dv = 2 \/ RevOn(X, A, S.selects) # <<>> \/ RevOn(X, A, S.implies) # <<>> THEN "y" ELSE "n"
+         IN IF dv = 2 \/ RevOn(X, A, S.selects) # <<>> \/ (RevOn(X, A, S.implies) # <<>> /\ A.inj.s[n] = NoVal) THEN "y" ELSE "n"
   ELSE LET ds == DefaultsOf(X, A, n)
            di == FirstTrue(X, A, ds)
-           ws == IF DirectDep(X, A, n) = 2 THEN RevOn(X, A, S.wsets) ELSE <<>>
+           ws == IF DirectDep(X, A, n) = 2 /\ A.inj.s[n] = NoVal THEN RevOn(X, A, S.wsets) ELSE <<>>
            wv == IF ws = <<>> THEN ""
                  ELSE IF S.type \in {"int", "hex"} THEN ws[1].e.v[2] ELSE AtomStr(X, A, ws[1].e.v)
        IN IF ws # <<>> /\ (S.type = "string" \/ wv # "") THEN wv   \* an enabled `set default` is what it falls back to
